@@ -3,6 +3,7 @@
 use crate::runner::{RunCtx, Stage};
 
 pub mod common;
+pub mod c20;
 pub mod c17;
 pub mod c18;
 pub mod c19;
@@ -38,5 +39,5 @@ macro_rules! prop {
 }
 
 pub fn registry() -> Vec<PropDef> {
-    vec![prop!("C01", c01), prop!("C02", c02), prop!("C03", c03), prop!("C04", c04), prop!("C05", c05), prop!("C06", c06), prop!("C07", c07), prop!("C08", c08), prop!("C09", c09), prop!("C10", c10), prop!("C11", c11), prop!("C12", c12), prop!("C13", c13), prop!("C14", c14), prop!("C15", c15), prop!("C16", c16), prop!("C17", c17), prop!("C18", c18), prop!("C19", c19)]
+    vec![prop!("C01", c01), prop!("C02", c02), prop!("C03", c03), prop!("C04", c04), prop!("C05", c05), prop!("C06", c06), prop!("C07", c07), prop!("C08", c08), prop!("C09", c09), prop!("C10", c10), prop!("C11", c11), prop!("C12", c12), prop!("C13", c13), prop!("C14", c14), prop!("C15", c15), prop!("C16", c16), prop!("C17", c17), prop!("C18", c18), prop!("C19", c19), prop!("C20", c20)]
 }
